@@ -123,6 +123,9 @@ func (n *Net) Heal() {
 	n.rules = nil
 }
 
+// ResetRTT starts a new round-trip measurement window.
+func (n *Net) ResetRTT() { atomic.StoreInt64(&n.MaxRTT, 0) }
+
 // ClearLinks removes the static link faults (partitions, loss, delay) but keeps the rules and their gates.
 func (n *Net) ClearLinks() {
 	n.mu.Lock()
@@ -380,6 +383,7 @@ func (e *Endpoint) run(msg *mon.Msg, call func(dst *Endpoint, msg *mon.Msg) erro
 	start := time.Now()
 	n.M.Emit(mon.Event{Kind: mon.KSend, Node: e.ID, Inc: e.Inc, Msg: cp(msg)})
 	a := n.decide(msg, false)
+	gated := a.gate != nil
 	if a.drop {
 		n.M.Emit(mon.Event{Kind: mon.KDrop, Node: e.ID, Str: "req", Msg: &mon.Msg{ID: msg.ID}})
 		return ErrNet
@@ -413,6 +417,7 @@ func (e *Endpoint) run(msg *mon.Msg, call func(dst *Endpoint, msg *mon.Msg) erro
 		return err
 	}
 	a = n.decide(msg, true)
+	gated = gated || a.gate != nil
 	if a.drop {
 		n.M.Emit(mon.Event{Kind: mon.KDrop, Node: e.ID, Str: "rep", Msg: &mon.Msg{ID: msg.ID}})
 		return ErrNet
@@ -424,6 +429,9 @@ func (e *Endpoint) run(msg *mon.Msg, call func(dst *Endpoint, msg *mon.Msg) erro
 		return ErrNet
 	}
 	rtt := int64(time.Since(start))
+	if gated {
+		rtt = 0 // held on purpose by the scenario: not a measurement of network delay
+	}
 	for {
 		old := atomic.LoadInt64(&n.MaxRTT)
 		if rtt <= old || atomic.CompareAndSwapInt64(&n.MaxRTT, old, rtt) {
